@@ -1,5 +1,6 @@
 import FluteModel.Lemmas.SessionBuild
 import FluteModel.Lemmas.SessionCodec
+import FluteModel.Lemmas.SessionBencTie
 /-
   C02 — loss recovery: any loss / duplication pattern (order preserved) that leaves an FDT instance
   listing the object and decodable symbols of every source block still delivers the object.
@@ -191,6 +192,43 @@ theorem recoverable_delivers_built (cF cO : Codec) (rc : RxCfg) (s : SessCfg) (o
     buildStream_fdt f.id sched srcs stream _ hno0 hbuild hsrcF rfl (by intro r hr; simp at hr)
   exact recoverable_delivers_session cF cO rc s o hto hN hfit hw hblocks tr trLast h1 h2 hall f hfind hfN hflook hfblocks
     hfresh trF h3 stream hlife hfdtsrc mults ps1 ps2 hrecv hwhole hnoclose hdec hsome
+
+/-- **Phase 2: C02 as a corollary of C08 (sender, engine `benc`) and the receiver theorem.**
+    The object's packets in the stream are (a prefix of) the packet trace `tr` of a complete, unforced LAST
+    transfer of benc's byte-level block-encoder model (`Run`, Lemmas/BencShape.lean: ANY object bytes `c`,
+    E, B, parity, window, codec accepting the blocks), projected to (SBN, ESI, B); the session-level object
+    has the same partition (`ksOf`, C07).  The sender facts are NOT taken from my emission model but from
+    benc's theorems (`transfer_per_block`, `esis_per_block`, `close_object_only_last`).  Then, for ANY
+    loss / duplication vector meeting the reception hypotheses, the writer gets `complete`. -/
+theorem recoverable_delivers_from_C08 (cF cO : Codec) (rc : RxCfg) (s : SessCfg) (o : ObjCfg)
+    {P : BlockEnc.Params} {c : Fec.Bytes} {aL aS nL n : Nat} {tr : List (Bool × BlockEnc.Pkt)} {se : BlockEnc.Enc}
+    (hrun : BencShape.Run P c aL aS nL n true tr se) (hle : BencPsi.SymLe P.codec)
+    (hnf : ∀ x, x ∈ tr → x.1 = false) (hend : (BlockEnc.read P se false).1 = .none)
+    (hks : o.ks = ksOf aL aS nL n) (hp : o.p = P.p) (hsch : o.scheme = .nocode → P.p = 0)
+    (hto : o.toi ≠ 0) (hN : o.ks.isEmpty = false) (hfit : Fits rc o)
+    (hall : ∀ f, f ∈ s.fdts → f.files.contains o.toi = true)
+    (f : FdtCfg) (hfind : s.fdts.find? (fun x => x.id == f.id) = some f)
+    (hfN : f.ks.isEmpty = false) (hflook : f.ks.size ≤ rc.maxLook)
+    (hfresh : blockDone cF.canDecode f.ks s.fdtP [] 0 = false)
+    (stream : List Pkt) (mults : List Nat) (ps1 ps2 : List Pkt)
+    (hrecv : applyMults stream mults = ps1 ++ ps2)
+    (hgenF : ∀ p, p ∈ stream → p.toi = 0 → p.fdtId = f.id → Genuine (fdtObj s f) (toSym p) ∧ p.close = false)
+    (hsrc : osyms o stream <+: (BencTrace.pkts tr).map symOfB)
+    (hwhole : AllDec cF (fdtObj s f) (fsyms f.id ps1))
+    (hnoclose : ∀ q, q ∈ osyms o ps1 → q.close = false)
+    (hdec : AllDec cO o (osyms o (ps1 ++ ps2)))
+    (hsome : osyms o (ps1 ++ ps2) ≠ []) :
+    1 ≤ (observe cF.canDecode cO.canDecode rc s o (applyMults stream mults)).completes := by
+  obtain ⟨pre, hpre⟩ := hsrc
+  have hgen := genuine_of_benc hrun hle hnf hend o hks hp hsch
+  have hol := (benc_trace_facts hrun hle hnf hend).2.2
+  apply recoverable_delivers_stream cF cO rc s o hto hN hfit hall f hfind hfN hflook hfresh stream mults ps1 ps2 hrecv hgenF
+  · intro q hq; exact hgen q (by rw [← hpre]; exact List.mem_append_left _ hq)
+  · apply onlyLast_prefix _ pre; rw [hpre]; exact hol
+  · exact hwhole
+  · exact hnoclose
+  · exact hdec
+  · exact hsome
 
 /-- after a close-object packet only copies of it arrive (what "B only on the very last packet of the
     last transfer" means for a received sub-multiset, order preserved) -/
